@@ -70,6 +70,12 @@ pub const KEEP_ALIVE_INTERVAL: u64 = 16;
 pub struct Connection<S, Stat, Disc, Filt, Stra, Auth, Loca> {
     stream: CipherStream<S, Aes128Cfb8Enc, Aes128Cfb8Dec>,
     buffer: Vec<u8>,
+    /// Received bytes that do not form a complete frame yet.
+    read_buffer: Vec<u8>,
+    /// Encoded frames that were not completely handed to the stream yet.
+    write_buffer: Vec<u8>,
+    /// The number of bytes of the write buffer that were already handed to the stream.
+    write_position: usize,
 
     // adapters
     status_adapter: Arc<Stat>,
@@ -119,6 +125,9 @@ where
         Self {
             stream: CipherStream::from_stream(stream),
             buffer: Vec::with_capacity(INITIAL_BUFFER_SIZE),
+            read_buffer: Vec::with_capacity(INITIAL_BUFFER_SIZE),
+            write_buffer: Vec::with_capacity(INITIAL_BUFFER_SIZE),
+            write_position: 0,
             // adapters
             status_adapter,
             discovery_adapter,
@@ -158,13 +167,56 @@ where
         self
     }
 
+    /// Checks whether the read buffer starts with a complete frame. Returns the declared frame length
+    /// and the size of the length prefix, or `None` if more bytes are needed. The declared length
+    /// is validated as soon as it is known, before the frame content is awaited.
+    fn buffered_frame(&self) -> Result<Option<(usize, usize)>, Error> {
+        // decode the length prefix (var int of at most five bytes)
+        let mut length: VarInt = 0;
+        let mut prefix = None;
+        for (i, byte) in self.read_buffer.iter().take(5).enumerate() {
+            length |= (VarInt::from(byte & 0b0111_1111)) << (7 * i);
+            if byte & 0b1000_0000 == 0 || i == 4 {
+                prefix = Some(i + 1);
+                break;
+            }
+        }
+        let Some(prefix) = prefix else {
+            return Ok(None);
+        };
+
+        // check the length of the packet for any following content
+        if length <= 0 || length > self.max_packet_length {
+            debug!(
+                length,
+                "packet length should be between 0 and {}", self.max_packet_length
+            );
+            return Err(passage_packets::Error::IllegalPacketLength.into());
+        }
+
+        let length = usize::try_from(length).expect("length is always positive");
+        if self.read_buffer.len() < prefix + length {
+            return Ok(None);
+        }
+        Ok(Some((length, prefix)))
+    }
+
     #[instrument(skip_all, fields(packet_length = field::Empty, packet_id = field::Empty))]
     async fn receive_packet(
         &mut self,
         keep_alive: bool,
     ) -> Result<(VarInt, Cursor<Vec<u8>>), Error> {
-        // wait for the next packet, send keep-alive packets as necessary
-        let length = loop {
+        // wait for the next complete packet, send keep-alive packets as necessary. This future may be
+        // dropped at any await point (it is raced against the adapters), so received bytes are kept
+        // in the read buffer until they form a whole frame and only cancel-safe reads are awaited
+        let (length, prefix) = loop {
+            if let Some(frame) = self.buffered_frame()? {
+                break frame;
+            }
+
+            // finish writing whatever a dropped predecessor of this future left behind
+            self.flush_write_buffer().await?;
+
             tokio::select! {
                 // use biased selection such that branches are checked in order
                 biased;
@@ -187,46 +239,29 @@ where
                     let packet = conf_out::KeepAlivePacket { id };
                     self.send_packet(packet).await?;
                 },
-                // await the next packet in, reading the packet size (expect fast execution)
-                maybe_length = self.stream.read_varint().instrument(tracing::info_span!("read_packet_length", otel.kind = "server")) => {
-                    break maybe_length?;
+                // await the next bytes of the packet (expect fast execution)
+                maybe_read = self.stream.read_buf(&mut self.read_buffer).instrument(tracing::info_span!("read_packet_bytes", otel.kind = "server")) => {
+                    if maybe_read? == 0 {
+                        return Err(std::io::Error::from(std::io::ErrorKind::UnexpectedEof).into());
+                    }
                 },
             }
         };
 
-        // check the length of the packet for any following content
-        if length <= 0 || length > self.max_packet_length {
-            debug!(
-                length,
-                "packet length should be between 0 and {}", self.max_packet_length
-            );
-            return Err(passage_packets::Error::IllegalPacketLength.into());
-        }
-
         // track metrics
-        let packet_size = u64::try_from(length).expect("length is always positive");
+        let packet_size = u64::try_from(length).expect("usize always fits into u64");
         metrics::packet_size::record_serverbound(packet_size);
         tracing::Span::current().record("packet_length", packet_size);
 
-        // extract the encoded packet id
-        let id = self
-            .stream
-            .read_varint()
-            .instrument(tracing::info_span!("read_packet_id", otel.kind = "server"))
-            .await?;
+        // take the frame out of the read buffer and extract the encoded packet id
+        let frame: Vec<u8> = self.read_buffer.drain(..prefix + length).skip(prefix).collect();
+        let mut frame = Cursor::new(frame);
+        let id = frame.read_varint().await?;
         tracing::Span::current().record("packet_id", id);
 
-        // split a separate reader from the stream and read packet bytes (advancing stream)
-        let mut buffer = vec![];
-        (&mut self.stream)
-            .take(length as u64 - 1)
-            .read_to_end(&mut buffer)
-            .instrument(tracing::info_span!(
-                "read_packet_bytes",
-                otel.kind = "server"
-            ))
-            .await?;
-        let buf = Cursor::new(buffer);
+        // the remaining bytes are the packet content
+        let position = usize::try_from(frame.position()).expect("position is within the frame");
+        let buf = Cursor::new(frame.into_inner().split_off(position));
 
         Ok((id, buf))
     }
@@ -241,23 +276,41 @@ where
         self.buffer.write_varint(T::ID as VarInt).await?;
         packet.write_to_buffer(&mut self.buffer).await?;
 
-        // prepare a final buffer (leaving max 2 bytes for varint as packets never get that big)
+        // queue the final frame behind anything that was not completely written yet
         let packet_len = self.buffer.len();
-        // TODO reuse buffer here or write twice!
-        let mut final_buffer = Vec::with_capacity(packet_len + 2);
-        final_buffer.write_varint(packet_len as VarInt).await?;
-        final_buffer.extend_from_slice(&self.buffer);
+        let queued_len = self.write_buffer.len();
+        self.write_buffer.write_varint(packet_len as VarInt).await?;
+        self.write_buffer.extend_from_slice(&self.buffer);
+        let frame_len = self.write_buffer.len() - queued_len;
 
-        // send the final buffer into the stream
-        self.stream
-            .write_all(&final_buffer)
+        // send the queued frames into the stream
+        self.flush_write_buffer()
             .instrument(tracing::info_span!("write_packet", otel.kind = "server"))
             .await?;
 
         // track metrics
-        let packet_size = u64::try_from(final_buffer.len()).expect("usize always fits into u64");
+        let packet_size = u64::try_from(frame_len).expect("usize always fits into u64");
         metrics::packet_size::record_clientbound(packet_size);
 
+        Ok(())
+    }
+
+    /// Hands all queued frames to the stream. This future may be dropped at any await point (the
+    /// keep-alive handling is raced against the adapters), so the progress is kept in the connection
+    /// and the remaining bytes are written before any later frame.
+    async fn flush_write_buffer(&mut self) -> Result<(), Error> {
+        while self.write_position < self.write_buffer.len() {
+            let written = self
+                .stream
+                .write(&self.write_buffer[self.write_position..])
+                .await?;
+            if written == 0 {
+                return Err(std::io::Error::from(std::io::ErrorKind::WriteZero).into());
+            }
+            self.write_position += written;
+        }
+        self.write_buffer.clear();
+        self.write_position = 0;
         Ok(())
     }
 
@@ -269,7 +322,6 @@ where
         }
     }
 
-    // TODO check whether this may result in partially written packets?
     /** Endlessly receives and sends keep-alive packets. It should be used with a `tokio::select!` */
     async fn keep_alive<T>(&mut self) -> Result<T, Error> {
         loop {
